@@ -390,9 +390,9 @@ func (f *Frame) appendCall(in *ssa.Call) {
 	// Go semantics: in place when capacity suffices, otherwise a fresh backing array.
 	fits := Le(Add(s.Len, n), s.Cap)
 	nb := f.fresh("app_"+in.Name()+".base", IntS)
-	alloc := f.st.Get(allocKey, ArrayS(IntS, BoolS))
+	alloc := f.st.Get(allocKey, allocSort)
 	f.E.noteVars(alloc)
-	f.assume(Implies(Not(fits), And(Gt(nb, IntLit(0)), Not(Select(alloc, nb)))), "append reallocates to a fresh backing array")
+	f.assume(And(Ge(alloc, IntLit(1)), Implies(Not(fits), Eq(nb, alloc))), "append reallocates to a fresh backing array")
 	f.assume(Implies(fits, Eq(nb, s.Base)), "append in place when capacity suffices")
 	f.assume(Implies(And(fits, Eq(s.Base, IntLit(0))), False), "nil slice has no capacity")
 	newCap := f.fresh("app_"+in.Name()+".cap", IntS)
@@ -400,7 +400,7 @@ func (f *Frame) appendCall(in *ssa.Call) {
 	newOff := Ite(fits, s.Off, IntLit(0))
 	newOff = f.E.name(newOff, f.prefix+"app_"+in.Name()+".off")
 	f.st = f.st.Clone()
-	f.st.Set(allocKey, ArrayS(IntS, BoolS), f.E.name(Store(alloc, nb, True), f.prefix+"alloc"))
+	f.st.Set(allocKey, allocSort, f.E.name(Ite(fits, alloc, Add(alloc, IntLit(1))), f.prefix+"alloc"))
 	// element count known?
 	cnt, known := n.IntVal()
 	bound := int64(-1)
@@ -687,6 +687,10 @@ func (f *Frame) staticCall(instr ssa.Instruction, callee *ssa.Function, args []*
 		f.contractCall(instr, callee, fc, args, setResult)
 		return
 	}
+	if fc := f.E.P.Cs.Funcs[key]; fc != nil && fc.Inline && len(callee.Blocks) > 0 {
+		f.inlineCall(instr, callee, args, nil, setResult)
+		return
+	}
 	if isRepoFunc(callee) && len(callee.Blocks) > 0 && f.canInline(callee) {
 		f.inlineCall(instr, callee, args, nil, setResult)
 		return
@@ -710,13 +714,10 @@ func (f *Frame) staticCall(instr ssa.Instruction, callee *ssa.Function, args []*
 func (f *Frame) summaryCall(instr ssa.Instruction, callee *ssa.Function, args []*Val, setResult func(*Val)) {
 	ms := f.E.modsetOf(callee)
 	if _, unknown := ms["*"]; unknown {
-		f.E.fail("callee %s has unknown effects (calls through function values or unresolvable interfaces); it needs a contract", funcKey(callee))
+		f.E.fail("callee %s has unknown effects (%s); it needs a contract", funcKey(callee), strings.Join(sortedKeys(f.E.unknownWhy), "; "))
 	}
 	f.E.Assumes["effect summary of "+funcKey(callee)+" inferred from its SSA (writes only the heap keys its body and callees store to; result unconstrained)"] = true
-	f.st = f.st.Clone()
-	for _, k := range sortedKeys(ms) {
-		f.st.Set(k, ms[k], f.fresh("hv$"+k, ms[k]))
-	}
+	f.havocSummary(ms, f.E.whoOf(callee), args)
 	r := f.freshResult(callee.Signature, callName(instr)+".r")
 	if r != nil {
 		f.assumeAllocated(r)
@@ -730,7 +731,7 @@ func (f *Frame) canInline(callee *ssa.Function) bool {
 			return false
 		}
 	}
-	if len(f.E.inlining) > 6 {
+	if len(f.E.inlining) > 2 {
 		return false
 	}
 	n := 0
@@ -742,7 +743,7 @@ func (f *Frame) canInline(callee *ssa.Function) bool {
 			}
 		}
 	}
-	return n <= 120
+	return n <= 60
 }
 
 func (f *Frame) inlineCall(instr ssa.Instruction, callee *ssa.Function, args []*Val, binds []*Val, setResult func(*Val)) {
@@ -882,7 +883,41 @@ func (f *Frame) funcValueCall(instr ssa.Instruction, c *ssa.CallCommon, fv *Val,
 		f.defaultCall(instr, c.Signature(), eff, args, setResult)
 		return
 	}
-	f.E.fail("call through function value of type %s needs a trusted effect (functype)", tk)
+	targets := f.E.P.funcValueTargets(c.Signature())
+	if len(targets) == 0 {
+		f.E.fail("call through function value of type %s: no repository function of that signature is used as a value; it needs a trusted effect (functype)", tk)
+	}
+	f.E.Assumes["closed world for function values: a call through a value of type "+tk+" reaches only repository functions of that signature that are used as values"] = true
+	ms := map[string]*Sort{}
+	wm := map[string]*who{}
+	for _, t := range targets {
+		if fc := f.E.P.Cs.Funcs[funcKey(t)]; fc != nil && fc.Pure {
+			continue
+		}
+		tw := f.E.whoOf(t)
+		for k, s := range f.E.modsetOf(t) {
+			ms[k] = s
+			w := wm[k]
+			if w == nil {
+				w = &who{params: map[int]bool{}}
+				wm[k] = w
+			}
+			if x := tw[k]; x == nil || x.other || len(x.params) > 0 {
+				w.other = true // parameters of the target are not known at this call
+			} else if x.fresh {
+				w.fresh = true
+			}
+		}
+	}
+	if _, unknown := ms["*"]; unknown {
+		f.E.fail("call through function value of type %s has unknown effects (%s)", tk, strings.Join(sortedKeys(f.E.unknownWhy), "; "))
+	}
+	f.havocSummary(ms, wm, nil)
+	r := f.freshResult(c.Signature(), callName(instr)+".r")
+	if r != nil {
+		f.assumeAllocated(r)
+	}
+	setResult(r)
 }
 
 func (f *Frame) invoke(instr ssa.Instruction, c *ssa.CallCommon, recv *Val, args []*Val, setResult func(*Val)) {
@@ -906,7 +941,19 @@ func (f *Frame) invoke(instr ssa.Instruction, c *ssa.CallCommon, recv *Val, args
 		f.defaultCall(instr, c.Signature(), eff, args, setResult)
 		return
 	}
-	f.E.fail("interface method %s needs a contract (iface) or trusted default", key)
+	// effect inferred from every implementer in the repository
+	ms := map[string]*Sort{}
+	f.E.invokeModKeys(c, ms)
+	if _, unknown := ms["*"]; unknown {
+		f.E.fail("interface method %s has unknown effects; it needs a contract (iface) or trusted default", key)
+	}
+	f.E.Assumes["effect summary of interface method "+key+" inferred from all its implementers in the repository (result unconstrained)"] = true
+	f.havocSummary(ms, nil, nil)
+	r := f.freshResult(c.Signature(), callName(instr)+".r")
+	if r != nil {
+		f.assumeAllocated(r)
+	}
+	setResult(r)
 }
 
 // ---------------------------------------------------------------- contract rule
@@ -975,7 +1022,15 @@ func (f *Frame) contractCallSig(instr ssa.Instruction, key string, sig *types.Si
 	for i, cl := range fc.Requires {
 		t := f.evalBool(cl.E, env)
 		desc := fmt.Sprintf("%s.%d", key, i+1)
-		e.addObl("pre@call", desc, f.curGuard, t, f.where(instr.Pos()), f.props())
+		// a precondition belongs to the callee's property
+		ps := fc.Props
+		if len(cl.Props) > 0 {
+			ps = cl.Props
+		}
+		if len(ps) == 0 {
+			ps = f.props()
+		}
+		e.addObl("pre@call", desc, f.curGuard, t, f.where(instr.Pos()), ps)
 		f.assume(t, "precondition established")
 	}
 	// frame: havoc what the callee may modify
@@ -992,12 +1047,13 @@ func (f *Frame) contractCallSig(instr ssa.Instruction, key string, sig *types.Si
 	if res != nil {
 		env2.Result = res
 	}
+	f.applyEffects(fc, env2, post)
 	for _, cl := range fc.Ensures {
 		t := f.evalBool(cl.E, env2)
 		f.assume(t, "postcondition of "+key)
 	}
 	if fc.Opts["deterministic"] != "" && res != nil {
-		det := f.detApply(key, args)
+		det := f.detApply(key, key, args)
 		dl, rl := det.leaves(), res.leaves()
 		for i := range dl {
 			f.assume(Eq(rl[i], dl[i]), "deterministic abstraction of "+key)
@@ -1021,9 +1077,17 @@ func (f *Frame) applyModifies(fc *FuncContract, env *Env, post *State, key strin
 		if _, unknown := ms["*"]; unknown {
 			f.E.fail("contract for %s has no modifies clause and its body has unknown effects (function-value calls); add a modifies clause", key)
 		}
-		for k, s := range ms {
-			post.Set(k, s, f.fresh("hv$"+k, s))
+		save := f.st
+		f.st = post
+		var args []*Val
+		for _, n := range paramNames(fn.Signature, fc, fn.Signature.Recv() != nil) {
+			args = append(args, env.Vars[n])
 		}
+		f.havocSummary(ms, f.E.whoOf(fn), args)
+		for k, t := range f.st.m {
+			post.Set(k, f.st.sorts[k], t)
+		}
+		f.st = save
 		return
 	}
 	for _, cl := range fc.Modifies {
@@ -1166,18 +1230,212 @@ func (f *Frame) storeInto(a *Addr, v *Val, st *State) {
 // ---------------------------------------------------------------- modsets
 
 // modsetOf: heap keys a function may write (transitively), in the current mode.
+// Computed as a fixpoint so that recursive call cycles are handled soundly.
 func (e *Enc) modsetOf(fn *ssa.Function) map[string]*Sort {
+	if m, ok := e.modsetMemo[fn]; ok && e.modsetDone[fn] {
+		return m
+	}
+	if e.modsetDone == nil {
+		e.modsetDone = map[*ssa.Function]bool{}
+	}
+	var visit func(fn *ssa.Function)
+	var touched []*ssa.Function
+	visit = func(fn *ssa.Function) {
+		if _, ok := e.modsetMemo[fn]; ok {
+			return
+		}
+		e.modsetMemo[fn] = map[string]*Sort{}
+		touched = append(touched, fn)
+		e.modsetVisit = visit
+		e.fillModset(fn)
+	}
+	visit(fn)
+	for changed := true; changed; {
+		changed = false
+		for _, g := range touched {
+			before := len(e.modsetMemo[g]) + whoSize(e.whoMemo[g])
+			e.fillModset(g)
+			if len(e.modsetMemo[g])+whoSize(e.whoMemo[g]) != before {
+				changed = true
+			}
+		}
+	}
+	for _, g := range touched {
+		e.modsetDone[g] = true
+	}
+	return e.modsetMemo[fn]
+}
+
+func (e *Enc) fillModset(fn *ssa.Function) {
+	m := e.modsetMemo[fn]
+	if e.whoMemo == nil {
+		e.whoMemo = map[*ssa.Function]map[string]*who{}
+	}
+	wm := e.whoMemo[fn]
+	if wm == nil {
+		wm = map[string]*who{}
+		e.whoMemo[fn] = wm
+	}
+	for _, b := range fn.Blocks {
+		for _, in := range b.Instrs {
+			tmp := map[string]*Sort{}
+			e.instrModKeys(in, tmp, false)
+			if len(tmp) == 0 {
+				continue
+			}
+			for k, srt := range tmp {
+				m[k] = srt
+				w := wm[k]
+				if w == nil {
+					w = &who{params: map[int]bool{}}
+					wm[k] = w
+				}
+				e.classifyWrite(fn, in, k, w)
+			}
+		}
+	}
+}
+
+// who: which objects a function may write for a heap key
+type who struct {
+	other  bool         // arbitrary pre-existing objects
+	fresh  bool         // objects allocated during the call
+	params map[int]bool // the object passed as parameter i (receiver = 0)
+}
+
+func (w *who) size() int {
+	n := len(w.params)
+	if w.other {
+		n += 1000
+	}
+	if w.fresh {
+		n += 100
+	}
+	return n
+}
+
+func addrRoot(v ssa.Value) ssa.Value {
+	for {
+		if fa, ok := v.(*ssa.FieldAddr); ok {
+			v = fa.X
+			continue
+		}
+		return v
+	}
+}
+
+func paramIndex(fn *ssa.Function, v ssa.Value) int {
+	for i, p := range fn.Params {
+		if p == v {
+			return i
+		}
+	}
+	return -1
+}
+
+func isStructPtr(t types.Type) bool {
+	pt, ok := t.Underlying().(*types.Pointer)
+	if !ok {
+		return false
+	}
+	_, ok = pt.Elem().Underlying().(*types.Struct)
+	return ok
+}
+
+// classify the objects written for key k by instruction in
+func (e *Enc) classifyWrite(fn *ssa.Function, in ssa.Instruction, k string, w *who) {
+	if !strings.HasPrefix(k, "F$") && !strings.HasPrefix(k, "C$") {
+		w.other = true
+		return
+	}
+	classOf := func(root ssa.Value) (cls string, idx int) {
+		if a, ok := root.(*ssa.Alloc); ok {
+			if _, isStruct := a.Type().(*types.Pointer).Elem().Underlying().(*types.Struct); isStruct || a.Heap {
+				return "fresh", 0
+			}
+		}
+		if i := paramIndex(fn, root); i >= 0 && isStructPtr(root.Type()) {
+			return "param", i
+		}
+		return "other", 0
+	}
+	switch x := in.(type) {
+	case *ssa.Store:
+		cls, i := classOf(addrRoot(x.Addr))
+		switch cls {
+		case "fresh":
+			w.fresh = true
+		case "param":
+			w.params[i] = true
+		default:
+			w.other = true
+		}
+	case *ssa.Alloc:
+		w.fresh = true
+	case *ssa.Call, *ssa.Defer:
+		c := callCommonOf(in)
+		callee := c.StaticCallee()
+		if callee == nil || c.IsInvoke() || !isRepoFunc(callee) || len(callee.Blocks) == 0 {
+			w.other = true
+			return
+		}
+		if _, special := specialModKeys[fullName(callee)]; special {
+			w.other = true
+			return
+		}
+		if fc := e.P.Cs.Funcs[funcKey(callee)]; fc != nil && !fc.Inline && (len(fc.Modifies) > 0 || len(fc.Effects) > 0) {
+			w.other = true
+			return
+		}
+		cw := e.whoMemo[callee][k]
+		if cw == nil {
+			// key not (yet) in the callee's map: nothing to add in this round
+			return
+		}
+		if cw.other {
+			w.other = true
+		}
+		if cw.fresh {
+			w.fresh = true
+		}
+		for pi := range cw.params {
+			if pi >= len(c.Args) {
+				w.other = true
+				continue
+			}
+			cls, i := classOf(addrRoot(c.Args[pi]))
+			if _, direct := c.Args[pi].(*ssa.FieldAddr); direct {
+				cls = "other" // pointer to an embedded struct: not the object itself
+			}
+			switch cls {
+			case "fresh":
+				w.fresh = true
+			case "param":
+				w.params[i] = true
+			default:
+				w.other = true
+			}
+		}
+	default:
+		w.other = true
+	}
+}
+
+func (e *Enc) whoOf(fn *ssa.Function) map[string]*who {
+	e.modsetOf(fn)
+	return e.whoMemo[fn]
+}
+
+// calleeModset: the (possibly still growing) modset of a callee during the fixpoint
+func (e *Enc) calleeModset(fn *ssa.Function) map[string]*Sort {
 	if m, ok := e.modsetMemo[fn]; ok {
 		return m
 	}
-	m := map[string]*Sort{}
-	e.modsetMemo[fn] = m // recursion guard
-	for _, b := range fn.Blocks {
-		for _, in := range b.Instrs {
-			e.instrModKeys(in, m, false)
-		}
+	if e.modsetVisit != nil {
+		e.modsetVisit(fn)
+		return e.modsetMemo[fn]
 	}
-	return m
+	return e.modsetOf(fn)
 }
 
 func (e *Enc) addLeafKeys(m map[string]*Sort, prefix string, t types.Type, kind int) {
@@ -1255,7 +1513,7 @@ func (e *Enc) instrModKeys(in ssa.Instruction, m map[string]*Sort, includeLocal 
 	case *ssa.MapUpdate:
 		e.addMapKeys(m, in.Map.Type())
 	case *ssa.Alloc:
-		m[allocKey] = ArrayS(IntS, BoolS)
+		m[allocKey] = allocSort
 		t := in.Type().(*types.Pointer).Elem()
 		switch u := t.Underlying().(type) {
 		case *types.Struct:
@@ -1270,18 +1528,18 @@ func (e *Enc) instrModKeys(in ssa.Instruction, m map[string]*Sort, includeLocal 
 			}
 		}
 	case *ssa.MakeSlice:
-		m[allocKey] = ArrayS(IntS, BoolS)
+		m[allocKey] = allocSort
 		et := in.Type().Underlying().(*types.Slice).Elem()
 		e.addLeafKeys(m, "M$"+typeKey(et), et, AElem)
 	case *ssa.MakeMap:
-		m[allocKey] = ArrayS(IntS, BoolS)
+		m[allocKey] = allocSort
 		e.addMapKeys(m, in.Type())
 	case *ssa.MakeChan:
-		m[allocKey] = ArrayS(IntS, BoolS)
+		m[allocKey] = allocSort
 		m["closed"] = ArrayS(IntS, BoolS)
 	case *ssa.Convert:
 		if _, ok := in.Type().Underlying().(*types.Slice); ok {
-			m[allocKey] = ArrayS(IntS, BoolS)
+			m[allocKey] = allocSort
 			if e.Mode.Bytes {
 				m["M$byte"] = ArrayS(IntS, ArrayS(IntS, IntS))
 			}
@@ -1318,7 +1576,7 @@ func (e *Enc) callModKeys(c *ssa.CallCommon, m map[string]*Sort) {
 	if b, ok := c.Value.(*ssa.Builtin); ok {
 		switch b.Name() {
 		case "append":
-			m[allocKey] = ArrayS(IntS, BoolS)
+			m[allocKey] = allocSort
 			if sl, ok := c.Args[0].Type().Underlying().(*types.Slice); ok {
 				e.addLeafKeys(m, "M$"+typeKey(sl.Elem()), sl.Elem(), AElem)
 			}
@@ -1354,7 +1612,22 @@ func (e *Enc) callModKeys(c *ssa.CallCommon, m map[string]*Sort) {
 			if _, ok := e.P.Spec.funcTypeEffect(typeKey(c.Value.Type())); ok {
 				return
 			}
-			m["*"] = BoolS // unknown effects
+			targets := e.P.funcValueTargets(c.Signature())
+			if len(targets) == 0 {
+				m["*"] = BoolS // unknown effects
+				e.noteUnknown("call through function value of type " + typeKey(c.Value.Type()) + " with no repository target")
+				return
+			}
+			e.Assumes["closed world for function values: a call through a value of type "+typeKey(c.Value.Type())+" reaches only repository functions of that signature that are used as values"] = true
+			for _, t := range targets {
+				k2 := funcKey(t)
+				if fc := e.P.Cs.Funcs[k2]; fc != nil && fc.Pure {
+					continue
+				}
+				for k, s := range e.calleeModset(t) {
+					m[k] = s
+				}
+			}
 			return
 		}
 	}
@@ -1365,6 +1638,7 @@ func (e *Enc) callModKeys(c *ssa.CallCommon, m map[string]*Sort) {
 	}
 	key := funcKey(callee)
 	if fc := e.P.Cs.Funcs[key]; fc != nil && !fc.Inline {
+		e.effectKeys(fc, m)
 		if fc.Pure {
 			return
 		}
@@ -1394,7 +1668,7 @@ func (e *Enc) callModKeys(c *ssa.CallCommon, m map[string]*Sort) {
 		}
 		return
 	}
-	for k, s := range e.modsetOf(callee) {
+	for k, s := range e.calleeModset(callee) {
 		m[k] = s
 	}
 }
@@ -1421,6 +1695,7 @@ func (e *Enc) invokeModKeys(c *ssa.CallCommon, m map[string]*Sort) {
 	iface, ok := it.Underlying().(*types.Interface)
 	if !ok {
 		m["*"] = BoolS
+		e.noteUnknown("invoke on non-interface " + it.String())
 		return
 	}
 	found := false
@@ -1449,7 +1724,7 @@ func (e *Enc) invokeModKeys(c *ssa.CallCommon, m map[string]*Sort) {
 			if fc := e.P.Cs.Funcs[k2]; fc != nil && fc.Pure {
 				continue
 			}
-			for k, s := range e.modsetOf(fn) {
+			for k, s := range e.calleeModset(fn) {
 				m[k] = s
 			}
 			break
@@ -1457,11 +1732,20 @@ func (e *Enc) invokeModKeys(c *ssa.CallCommon, m map[string]*Sort) {
 	}
 	if !found {
 		m["*"] = BoolS
+		e.noteUnknown("interface method " + key + " (" + it.String() + "." + c.Method.Name() + ") has no implementer in the repository")
 	}
+}
+
+func (e *Enc) noteUnknown(why string) {
+	if e.unknownWhy == nil {
+		e.unknownWhy = map[string]bool{}
+	}
+	e.unknownWhy[why] = true
 }
 
 // conservative key set of a callee's explicit modifies clauses
 func (e *Enc) contractModKeys(fc *FuncContract, callee *ssa.Function, m map[string]*Sort) {
+	e.effectKeys(fc, m)
 	for _, cl := range fc.Modifies {
 		ex := cl.E
 		switch ex.K {
@@ -1764,4 +2048,127 @@ func (f *Frame) loopPreciseKeys(li *loopInfo) map[string]*preciseKey {
 		delete(res, k)
 	}
 	return res
+}
+
+
+// effect clauses: "effect <ghost> <expr>" — calling the function is the event
+// that increments ghost[<expr>] (e.g. runs[metadata] for a job start).
+func parseEffect(cl *Clause) (string, *CExpr, *CExpr, error) {
+	name, rest := splitWord(cl.Text)
+	var valText string
+	if k := strings.Index(rest, ":="); k >= 0 {
+		valText = strings.TrimSpace(rest[k+2:])
+		rest = strings.TrimSpace(rest[:k])
+	}
+	ex, err := ParseCExpr(rest)
+	if err != nil {
+		return "", nil, nil, fmt.Errorf("%s: %v", cl.Where, err)
+	}
+	var val *CExpr
+	if valText != "" {
+		val, err = ParseCExpr(valText)
+		if err != nil {
+			return "", nil, nil, fmt.Errorf("%s: %v", cl.Where, err)
+		}
+	}
+	return name, ex, val, nil
+}
+
+// applyEffects: "effect g idx" increments ghost g[idx]; "effect g idx := v"
+// assigns it (v may mention result).  Effects are definitional: the call IS
+// the event; they are applied at call sites and not checked against the body.
+func (f *Frame) applyEffects(fc *FuncContract, env *Env, post *State) {
+	for _, cl := range fc.Effects {
+		name, ex, val, err := parseEffect(cl)
+		if err != nil {
+			f.E.fail("%v", err)
+		}
+		s, ok := f.E.P.Spec.ghostSort(name)
+		if !ok || s.K != SArray {
+			f.E.fail("effect on unknown ghost array %s", name)
+		}
+		idx := f.evalC(ex, env)
+		cur := post.Get(name, s)
+		f.E.noteVars(cur)
+		var nv *Term
+		if val == nil {
+			nv = Add(Select(cur, idx.X), IntLit(1))
+		} else {
+			nv = f.evalC(val, env).X
+		}
+		post.Set(name, s, f.E.name(Store(cur, idx.X, nv), f.prefix+"eff$"+name))
+	}
+}
+
+func (e *Enc) effectKeys(fc *FuncContract, m map[string]*Sort) {
+	for _, cl := range fc.Effects {
+		name, _ := splitWord(cl.Text)
+		if s, ok := e.P.Spec.ghostSort(name); ok {
+			m[name] = s
+		}
+	}
+}
+
+
+func whoSize(m map[string]*who) int {
+	n := 0
+	for _, w := range m {
+		n += w.size()
+	}
+	return n
+}
+
+// havocSummary applies an inferred effect summary at a call site: keys written
+// only at parameter objects / fresh objects keep every other pre-existing object.
+func (f *Frame) havocSummary(ms map[string]*Sort, wm map[string]*who, args []*Val) {
+	f.st = f.st.Clone()
+	allocPre := f.st.Get(allocKey, allocSort)
+	f.E.noteVars(allocPre)
+	for _, k := range sortedKeys(ms) {
+		srt := ms[k]
+		w := wm[k]
+		if k == allocKey {
+			// allocation only grows
+			nv := f.fresh("hv$"+k, allocSort)
+			f.assume(Ge(nv, allocPre), "allocated objects stay allocated")
+			f.st.Set(k, allocSort, nv)
+			continue
+		}
+		if w == nil || w.other || srt.K != SArray || srt.Idx.K != SInt {
+			f.st.Set(k, srt, f.fresh("hv$"+k, srt))
+			continue
+		}
+		var objs []*Term
+		ok := true
+		for pi := range w.params {
+			if pi >= len(args) || args[pi].K != VScalar && args[pi].K != VIface {
+				ok = false
+				break
+			}
+			objs = append(objs, args[pi].X)
+		}
+		if !ok {
+			f.st.Set(k, srt, f.fresh("hv$"+k, srt))
+			continue
+		}
+		cur := f.st.Get(k, srt)
+		f.E.noteVars(cur)
+		if !w.fresh {
+			nt := cur
+			for _, o := range objs {
+				nt = Store(nt, o, f.fresh("hv$"+k, srt.Elem))
+			}
+			f.st.Set(k, srt, f.E.name(nt, f.prefix+"hv$"+k))
+			continue
+		}
+		nv := f.fresh("hv$"+k, srt)
+		ob := Bound{Name: fmt.Sprintf("o!sf%d", f.E.nextQ()), S: IntS}
+		ov := Var(ob.Name, IntS)
+		conds := []*Term{allocatedIn(allocPre, ov)}
+		for _, o := range objs {
+			conds = append(conds, Neq(ov, o))
+		}
+		f.assume(Forall([]Bound{ob}, Implies(And(conds...), Eq(Select(nv, ov), Select(cur, ov)))), "callee writes this field only on its parameter objects and on objects it allocates")
+		f.st.Set(k, srt, nv)
+	}
 }
